@@ -233,7 +233,7 @@ def main(tier):
     rep = Report(PID, tier)
     from leuvenmapmatching.util import dist_latlon as dl
     rep.functions = src_hash(de.interpolate_path, de.distance, dl.interpolate_path)
-    budget = 120 if tier == 'quick' else 1200
+    budget = 120 if tier == 'quick' else 600
     insts = [('euclid', 1, budget), ('euclid', 2, budget), ('latlon_struct', 2), ('latlon_struct', 1)] + ([('euclid', 3, budget), ('latlon_struct', 3)] if tier == 'thorough' else [])
     res = run_instances(run_instance, insts)
     rep.bounds = dict(trace="1..%d points, all coordinates symbolic" % (2 if tier == 'quick' else 3), spacing="dd>0 symbolic",
